@@ -19,6 +19,7 @@ import Driver.Tbr
 import Driver.Oracle
 import Driver.Claim
 import Driver.FeeStake
+import Driver.Frame
 open Driver
 
 def dispatch (fam : String) : Option (List String → String → Option Res) :=
@@ -51,6 +52,8 @@ def dispatch (fam : String) : Option (List String → String → Option Res) :=
   | "apphash" => some runAppHash
   | "ledgersettle" => some runLedger
   | "feestake" => some runFeeStake
+  | "framesettle" => some runFrameSettle
+  | "nohaltsettle" => some runNoHaltSettle
   | "claim" => some runClaim
   | "oracle" => some runOracle
   | "oracle7" => some runOracle7
